@@ -48,6 +48,10 @@ func checkC04(e *RunEnv) *CheckResult {
 				steps = append(steps, Rmdir("d"))
 			}
 			steps = append(steps, Write("d/u", "untracked\n"))
+			// type change: the file a replaced by a directory a/ holding an untracked file
+			if _, ok := a.W["a"]; ok {
+				steps = append(steps, Write("a/u", "untracked inside a former file\n"))
+			}
 			return steps
 		},
 		CheckTrans: func(c *Ctx, pre *Node, st Step, res *Result, post *State) ([]Violation, bool) {
